@@ -322,6 +322,23 @@ func gen(r *vlib.R, n int, tier string, emit func(string)) {
 		emit(fmt.Sprintf("retain seq %d %s", r.U64()%1000000, strings.Join(ks, ",")))
 		n--
 	}
+	// 2h. upstream read buffers: runts, garbage and good messages, then several holders at once
+	for i := 0; i < 6; i++ {
+		var ts []string
+		for j, k := 0, 1+r.Intn(6); j < k; j++ {
+			kind := vlib.Pick(r, []string{"r", "r", "v"})
+			n := vlib.Pick(r, []int{0, 1, 5, 11, 12, 13, 40, 600, 2000})
+			if kind == "v" {
+				n = 0
+			}
+			ts = append(ts, vlib.Pick(r, []string{"t", "u"})+kind+fmt.Sprint(n))
+		}
+		if i == 0 {
+			ts = []string{"ur5", "tr3"}
+		}
+		emit("upool read " + strings.Join(ts, ","))
+		n--
+	}
 	// 2e. decoded entry: escaped panics, then overlapping requests on the pooled chains
 	for i := 0; i < 2; i++ {
 		emit(fmt.Sprintf("pool escape %d %d", r.U64()%1000000, 4+r.Intn(5)))
